@@ -71,8 +71,7 @@ Section CPython.
     read_text (print pc (VFloat FInf)) = ROk [VFloat FInf]
     /\ read_text (print pc (VFloat FNegInf)) = ROk [VFloat FNegInf]
     /\ read_text (print pc (VFloat FNaN)) = ROk [VFloat FNaN].
-  Proof. exact (special_float_roundtrip _ _ _ _ _ _ _ _ _ _ _ H_float_repr_inverse H_repr_grammar H_dec_str_inverse
-                  H_dec_grammar H_imag_inverse H_uuid_inverse H_inst_inverse). Qed.
+  Proof. exact (special_float_roundtrip _ _ _ _ _ _). Qed.
 
   Theorem C03_meta_roundtrip_partial : forall pc v, p_meta pc = true -> guard pc v = true ->
     read_text (print pc v) = ROk [v].
